@@ -511,7 +511,9 @@ pub fn check(tier: Tier) -> i32 {
             }
         }
     }
-    let st = selftest(&pals);
+    // the self-test runs the library too: on a tree that panics there it counts as failed (a verdict, if there is one,
+    // takes precedence over it)
+    let st = catch(|| selftest(&pals)).unwrap_or((1, 0));
     let mut ctxs = res.ctxs;
     ctxs.push(extra);
     let mut agg = merge(ctxs);
